@@ -14,6 +14,7 @@ import (
 	"fmt"
 	"os"
 	"testing"
+	"testing/synctest"
 	"time"
 )
 
@@ -155,14 +156,61 @@ func LiveThreads() int { return 0 }
 func Yield() {}
 
 // Clock returns an arbitrary instant, non-decreasing along the path.
+// Natively, inside WithFakeClock, the bubble's clock is advanced to that
+// instant, so time.Now() in the code under test agrees with the engine.
 func Clock() time.Time {
 	_, v := next("clock")
+	t := time.Unix(int64(v)-62135596800, 0)
+	if inBubble {
+		if d := time.Until(t); d > 0 {
+			time.Sleep(d)
+		}
+	}
+	return t
+}
+
+// Instant returns an arbitrary instant in the range Clock draws from; it does
+// not move the clock.
+func Instant(name string) time.Time {
+	_, v := next(name)
 	return time.Unix(int64(v)-62135596800, 0)
+}
+
+var (
+	curT     *testing.T
+	inBubble bool
+)
+
+// WithFakeClock runs f with a settable clock. Under the engine it is just
+// f(): time.Now() is the engine's symbolic clock anyway. Natively f runs in
+// a testing/synctest bubble, whose fake clock Clock() advances by sleeping;
+// f must leave no goroutine behind (stop sweepers, close what it opened).
+func WithFakeClock(f func()) {
+	if Symbolic() || curT == nil {
+		f()
+		return
+	}
+	var pv any
+	panicked := false
+	synctest.Test(curT, func(*testing.T) {
+		inBubble = true
+		defer func() {
+			inBubble = false
+			if r := recover(); r != nil {
+				pv, panicked = r, true
+			}
+		}()
+		f()
+	})
+	if panicked {
+		panic(pv)
+	}
 }
 
 // Replay runs harnesses natively on the vectors in $VERIF_REPLAY:
 // {"runs":[{"harness":"VerifX","inputs":{"name#0":1,...}},...]}.
 func Replay(t *testing.T, harnesses map[string]func()) {
+	curT = t
 	p := os.Getenv("VERIF_REPLAY")
 	b, err := os.ReadFile(p)
 	if err != nil {
